@@ -2,7 +2,7 @@
 # For every seeded change: apply it to /repo, run the registered quick check of the property it breaks, undo it straight afterwards.
 # Prints one line per change. /repo must be clean and no other check may run meanwhile.
 cd /verif
-for d in seeded/*/; do
+for d in seeded/${SEED_GLOB:-*}/; do
   name=$(basename "$d")
   # the check to run: the first `./check Cxx` named in detection.by (a few changes are caught by the check of another property
   # than the one their author named), else the property itself
